@@ -2,6 +2,7 @@ import TypstyleModel.Proofs.CarriesLists
 import TypstyleModel.Proofs.CarriesMarkup
 import TypstyleModel.Proofs.CarriesCall
 import TypstyleModel.Proofs.CarriesRaw
+import TypstyleModel.Proofs.CarriesBinary
 /-! The knot (route M): **for every tree of the covered fragment, the printed family carries exactly
 what the tree prescribes** — code tokens, comments, prose, literals and verbatim text — with no
 per-case certificate: by induction over the fuel of the knot, using the per-construct theorems.
@@ -135,7 +136,7 @@ def inFrag : ANode → Bool
   | .leaf k t a => ANode.tokensAreLeaves (.leaf k t a) && (!k.isExpr || k.isFragLeaf || (k == .parbreak && !a.disabled) || k == .none_ || k == .auto_) && (!k.isInnerKind || (k == .markup && t == ""))
   | .inner k cs _ =>
     (k.isFragFlow || k.isFragElem || (k.isFragList && listChildrenOK k cs) || k == .code ||
-      ((k.isFragWrap || k == .markup || k == .args || k == .funcCall || k == .params || k == .destructuring || k == .raw || k == .ref) && listChildrenOK k cs) || k.isFragItem || k == .setRule || k == .closure || k == .forLoop) && inFragL cs
+      ((k.isFragWrap || k == .markup || k == .args || k == .funcCall || k == .params || k == .destructuring || k == .raw || k == .ref) && listChildrenOK k cs) || k.isFragItem || k == .setRule || k == .closure || k == .forLoop || (k == .binary && binChildrenOK cs)) && inFragL cs
 def inFragL : List ANode → Bool
   | [] => true
   | c :: cs => inFrag c && inFragL cs
@@ -143,7 +144,7 @@ end
 
 theorem fragKind_inner (k : Kind) (cs : List ANode)
     (h : (k.isFragFlow || k.isFragElem || (k.isFragList && listChildrenOK k cs) || k == .code ||
-      ((k.isFragWrap || k == .markup || k == .args || k == .funcCall || k == .params || k == .destructuring || k == .raw || k == .ref) && listChildrenOK k cs) || k.isFragItem || k == .setRule || k == .closure || k == .forLoop) = true) : k.isInnerKind = true := by
+      ((k.isFragWrap || k == .markup || k == .args || k == .funcCall || k == .params || k == .destructuring || k == .raw || k == .ref) && listChildrenOK k cs) || k.isFragItem || k == .setRule || k == .closure || k == .forLoop || (k == .binary && binChildrenOK cs)) = true) : k.isInnerKind = true := by
   cases k <;> simp_all [Kind.isFragFlow, Kind.isFragElem, Kind.isFragList, Kind.isFragWrap, Kind.isFragItem, Kind.isInnerKind]
 
 mutual
@@ -177,6 +178,18 @@ theorem inFragL_append (a b : List ANode) : inFragL (a ++ b) = (inFragL a && inF
   | cons x xs ih => simp only [List.cons_append, inFragL, ih, Bool.and_assoc]
 
 abbrev Q : ANode → Prop := fun c => inFrag c = true
+
+theorem binQ_frag : BinQ Q where
+  leaf := by
+    intro k t a h hk
+    subst hk
+    simp [Q, inFrag, Kind.isInnerKind] at h
+  inner := by
+    intro cs a h _
+    simp only [Q, inFrag, Bool.and_eq_true] at h
+    have h1 := h.1
+    simp [Kind.isFragFlow, Kind.isFragElem, Kind.isFragList, Kind.isFragWrap, Kind.isFragItem] at h1
+    exact ⟨h1, inFragL_lex cs h.2, fun c hc => inFragL_mem h.2 hc⟩
 
 /-! ### elements: named, keyed, spread -/
 
@@ -342,16 +355,6 @@ theorem args_frag (e : Env) (r : Rec) (hr : RecOK r Q) (ctx : Ctx) (hctx : NM ct
       rw [hdw, hfl]
       refine Post.bind (Q := fun x => Carries x (specAllL cs)) (Post.bind (hblocks cs (fun b hb => hb) hch) (fun docs hd => Post.pure hd)) (fun x hx => Post.pure ?_)
       simpa using Carries.nil.app hx
-
-theorem optionalParen_carries (e : Env) (body : Doc) (sb : Streams) (hb : Carries body sb) (d0 d1 : String)
-    (h0 : d0.toList.filter Pretty.keepChar = []) (h1 : d1.toList.filter Pretty.keepChar = []) :
-    Carries (optionalParen e body d0 d1) sb := by
-  unfold optionalParen
-  have hop : Carries (Doc.falt (e.soft d0 ++ Twin.hardline) Doc.nil) {} :=
-    Carries.falt (by simpa using (Carries.soft e d0 h0).app Carries.hardline) Carries.nil
-  have hcl : Carries (Doc.falt (Twin.hardline ++ e.soft d1) Doc.nil) {} :=
-    Carries.falt (by simpa using Carries.hardline.app (Carries.soft e d1 h1)) Carries.nil
-  simpa using (((hop.app hb).nstTab).app hcl).grp
 
 theorem exprWithOptionalParen_frag (e : Env) (r : Rec) (hr : RecOK r Q) (ctx : Ctx) (hctx : NM ctx) (x : ANode) (useBraces : Bool)
     (hx : isExpr x = true) (hq : inFrag x = true) :
@@ -660,6 +663,12 @@ theorem convExpr_frag (e : Env) (r : Rec) (hr : RecOK r Q) (ctx : Ctx) (hctx : N
         · cases m with
           | inner _ _ _ => simp at hch
           | leaf km tm am => cases km <;> simp at hch
+      by_cases hbink : k = .binary
+      · subst hbink
+        have hq0 : inFrag (.inner .binary cs a) = true := by
+          simp only [inFrag, Bool.and_eq_true]; exact hq
+        show Post (convBinary e r ctx _) _
+        exact convBinary_carries e r hr binQ_frag ctx hctx cs a hq0 hd'
       by_cases hrawk : k = .raw
       · subst hrawk
         have hch : listChildrenOK .raw cs = true := by
